@@ -115,9 +115,7 @@ func legC19(e *Engine) []Violation {
 		w := BuildWorld(c)
 		defer w.Close()
 		if w.segs[sg].err != "" {
-			mu.Lock()
-			vs = append(vs, Violation{Prop: "C19", CaseID: c.ID, Kind: "fault", Case: c, Detail: "segment construction failed: " + w.segs[sg].err})
-			mu.Unlock()
+			e.count("skipped:segment-construction-failed", 1) // subject of C01-C04, not of C19
 			return
 		}
 		img, _, err := persist(w.segs[sg].seg)
@@ -264,7 +262,7 @@ func legC12(e *Engine) []Violation {
 		defer w.Close()
 		for _, s := range w.segs {
 			if s.err != "" {
-				add(Violation{Prop: "C12", CaseID: c.ID, Kind: "fault", Case: c, Detail: "segment construction failed: " + s.err})
+				e.count("skipped:segment-construction-failed", 1) // subject of C01-C04, not of C12
 				return
 			}
 		}
@@ -305,9 +303,13 @@ func legC12(e *Engine) []Violation {
 		for _, wl := range wls {
 			ref := &limitWriter{limit: -1, closeAt: -1, ch: make(chan struct{})}
 			n, err := wl.run(ref)
-			if err != nil || n != int64(ref.buf.Len()) {
+			if err != nil {
+				e.count("skipped:workload-fails-on-healthy-writer", 1) // subject of C02/C04
+				return
+			}
+			if n != int64(ref.buf.Len()) {
 				add(Violation{Prop: "C12", CaseID: c.ID, Kind: "fault", Case: c,
-					Detail: fmt.Sprintf("%s on a healthy writer: n=%d len=%d err=%v", wl.name, n, ref.buf.Len(), err)})
+					Detail: fmt.Sprintf("%s on a healthy writer: n=%d len=%d", wl.name, n, ref.buf.Len())})
 				return
 			}
 			total := ref.buf.Len()
